@@ -27,15 +27,19 @@ func vCtxArgs(out *bytes.Buffer, stringFlags []string, boolFlags []string, args 
 }
 
 // VerifH_C18_CreateThenExtract: a small tree (a file with arbitrary 2-byte content, optionally a
-// second file with arbitrary content that may equal the first, a symlink, a sub-directory with a
-// file) is packed with the real `car create` (CARv1 or CARv2, wrapped or --no-wrap) and unpacked
+// second file with arbitrary content that may equal the first, a symlink, a sub-directory with an
+// empty or one-byte file) is packed with the real `car create` (CARv1 or CARv2, wrapped or --no-wrap) and unpacked
 // with the real `car extract`: names, file contents and link targets are reproduced, the archive
 // has a single root, and inspection and verification accept it.
 func VerifH_C18_CreateThenExtract() {
 	vHashCollisionFree(true)
 	src := vFSPath("tree")
 	vFSMkdir(src)
-	f1 := vBytes("f1", 2)
+	n1 := 2
+	if vTier() == 1 {
+		n1 = vChoose("f1len", 4) // 0..3 bytes, the empty file included
+	}
+	f1 := vBytes("f1", n1)
 	vFSWriteFile(src+"/a", f1)
 	shape := vChoose("shape", 4)
 	var f2 []byte
@@ -47,7 +51,7 @@ func VerifH_C18_CreateThenExtract() {
 		vFSSymlink("a", src+"/l")
 	case 3:
 		vFSMkdir(src + "/d")
-		f2 = vBytes("f2", 1)
+		f2 = vBytes("f2", vChoose("nestedLen", 2)) // an empty or a one-byte file
 		vFSWriteFile(src+"/d/g", f2)
 	}
 	carPath := vFSPath("out.car")
@@ -110,6 +114,7 @@ func VerifH_C18_CreateThenExtract() {
 		got2, ok := vFSReadFile(base + "/d/g")
 		vAssert("nested-file-content", ok && vBytesEq(got2, f2))
 		vCover("nested-roundtrip", true)
+		vCover("empty-file-roundtrip", len(f2) == 0)
 	}
 	vCover("v1-nowrap", version == "1" && noWrap)
 	vCover("v2-wrapped", version == "2" && !noWrap)
